@@ -77,6 +77,14 @@ pub fn judge(h: &History, recs: &[StepRec]) -> Result<(u32, u32), Failure> {
                 let Some(s) = &r.session_after else { return Err(Failure::new("session-exists", case(), "JoinSuccess without a session")) };
                 let bytes = |v: &Value| -> Vec<u8> { v.as_array().map(|a| a.iter().map(|b| b.as_u64().unwrap_or(0) as u8).collect()).unwrap_or_default() };
                 let (dn, da, dad) = (bytes(&s["nwkskey"]), bytes(&s["appskey"]), bytes(&s["devaddr"]));
+                // the getters an application reads the session through say the same
+                if let Some((kn, ka, kaddr)) = &r.api_keys {
+                    if kn.to_vec() != nwk || ka.to_vec() != app || *kaddr != desc.dev_addr {
+                        return Err(Failure::new("session-keys", case(), format!("step {}: the session-key getter reports nwk {} app {} addr {kaddr:08x}; the JoinAccept defines nwk {} app {} addr {:08x}", r.index, hex(kn), hex(ka), hex(&nwk), hex(&app), desc.dev_addr)).with_fp("session-keys/getter"));
+                    }
+                } else {
+                    return Err(Failure::new("session-keys", case(), format!("step {}: JoinSuccess but the session-key getter reports no session", r.index)).with_fp("session-keys/getter"));
+                }
                 if dn != nwk || da != app {
                     // diagnose a stale DevNonce
                     let stale = { let net_prev = refcodec::derive_skey(&cur_key, 1, desc.join_nonce, desc.net_id, jr.dev_nonce); net_prev.to_vec() != dn };
